@@ -187,12 +187,19 @@ def retryable_names(ctx, f, h):
     return expand(t, f.module)
 
 
-@rule('C03.a', ['C03', 'C07', 'C05', 'C08', 'C17'], floor=6)
+@rule('C03.a', ['C03', 'C07', 'C05', 'C08', 'C17', 'C16', 'C02'], floor=6)
 def single_funnel(ctx):
     """Task.__call__ wraps waiting, kwarg gathering and _execute_main in a try whose
     handler catches Exception (or wider) and records it; no Task subclass overrides
     __call__/_execute_main/_log_and_set_exception; _execute_main runs only when the
     transfer is not done; done callbacks and (if final) announce_done are in finally."""
+    # a task body runs only through the funnel: nobody but Task._execute_main (or __call__ itself) calls a task's _main
+    for fx in ctx.p.all_functions():
+        for c in own_calls(fx.node):
+            if isinstance(c.func, ast.Attribute) and c.func.attr == '_main' and fx.qualname not in ('tasks.Task._execute_main', 'tasks.Task.__call__') \
+                    and not (isinstance(c.func.value, ast.Call) and norm(c.func.value.func) == 'super'):
+                ctx.ob(fx, c, False, 'a task body is run outside Task.__call__: its exception is not recorded on the transfer where it happened (it surfaces in '
+                                     'the caller, e.g. as a "retryable" stream error), the done() check and the done callbacks are skipped')
     f = ctx.func('tasks.Task.__call__')
     trys = [n for n in own_nodes(f.node) if isinstance(n, ast.Try)]
     ctx.need(trys, 'Task.__call__ has no try statement')
@@ -313,7 +320,7 @@ def success_has_one_writer(ctx):
         ctx.ob(cf.qualname, f'set_result argument {norm(arg)}', bool(src), 'the result must be the return value of _main')
 
 
-@rule('C03.c', ['C03', 'C05', 'C06', 'C19', 'C20'], floor=30)
+@rule('C03.c', ['C03', 'C05', 'C06', 'C19', 'C20', 'C01', 'C02', 'C16'], floor=15)
 def error_discipline(ctx):
     """Every except handler of the package re-raises, records the error into the
     coordinator/monitor/future, is a recognised bounded retry, or is in the frozen
@@ -325,7 +332,19 @@ def error_discipline(ctx):
     prints = dict(frozen_swallow_prints())
     for k_, v_ in swallow_prints(ctx).items():
         prints.setdefault(k_, v_)
+    # C01 looks at the upload / copy side only (the handlers of the download front-ends say nothing about uploaded bytes)
+    skip_mod = {'download', 'processpool', 'crt', 'delete'} if ctx.prop == 'C01' else \
+        ({'upload', 'copies', 'delete', 'crt'} if ctx.prop == 'C02' else ({'upload', 'copies', 'delete', 'crt', 'processpool', '__init__'} if ctx.prop == 'C16' else set()))
+    # a context manager's __exit__ that returns a true value suppresses whatever was propagating out of the with block
     for f in ctx.p.all_functions():
+        if f.name == '__exit__' and f.module.name not in skip_mod:
+            rets = [n for n in own_nodes(f.node) if isinstance(n, ast.Return) and n.value is not None]
+            bad = [n for n in rets if not (isinstance(n.value, ast.Constant) and not n.value.value)]
+            ctx.ob(f, f'{f.qualname} does not suppress exceptions', not bad,
+                   f'returns {[norm(n.value) for n in bad]}: an error raised inside the with block (a failed request) disappears and the step looks successful')
+    for f in ctx.p.all_functions():
+        if f.module.name in skip_mod:
+            continue
         for h in own_nodes(f.node):
             if not isinstance(h, ast.ExceptHandler):
                 continue
